@@ -797,3 +797,137 @@ def m_sleep(eng, callee, args):
         from mirsym import BoundHit
         raise BoundHit("more than %d reporter iterations" % lim)
     return Tuple([])
+
+
+@model(r"^<ThreadRng as rand::Rng>::random::<(T|f32|f64)>$|^<rand::rngs::ThreadRng as rand::Rng>::random::<(T|f32|f64)>$|^rand::random::<(T|f32|f64)>$|^random::<(T|f32|f64)>$",
+       "thread-local generator: a uniform draw logged as 'global_uniform' (not the sampler's own generator)")
+def m_thread_rng_float(eng, callee, args):
+    x = eng.ctx.fresh_real("global_uniform")
+    eng.ctx.assume(z3.And(x.z() >= 0, x.z() < 1))
+    eng.ctx.draws.append(("global_uniform", x))
+    return x
+
+
+@model(r"^<ThreadRng as rand::Rng>::sample::<(T|f32|f64), (StandardNormal|Exp1)>$|^<rand::rngs::ThreadRng as rand::Rng>::sample::<(T|f32|f64), (StandardNormal|Exp1)>$",
+       "thread-local generator: a normal / exponential draw logged as global")
+def m_thread_rng_sample(eng, callee, args):
+    kind = "global_normal" if "StandardNormal" in callee else "global_exp1"
+    x = eng.ctx.fresh_real(kind)
+    if kind == "global_exp1":
+        eng.ctx.assume(x.z() >= 0)
+    eng.ctx.draws.append((kind, x))
+    return x
+
+
+BIGF = Num(z3.Real("float_max_value"))
+
+
+@model(r"^<(T|F|f32|f64) as (num_traits::)?Float>::(max_value|min_value)$|^<(T|F) as (num_traits::)?Bounded>::(max_value|min_value)$",
+       "Float::max_value / min_value: +-(a symbol larger than 1e30)")
+def m_float_max_value(eng, callee, args):
+    eng.ctx.assume(BIGF.z() > z3.RealVal("1000000000000000000000000000000"))
+    return BIGF if callee.endswith("max_value") else -BIGF
+
+
+# --- further std iterator adaptors (not used by the pinned tree; present so that changed code stays decidable) -------
+@model(r"^<.* as Iterator>::step_by$", "Iterator::step_by")
+def m_step_by(eng, callee, args):
+    items = as_iter(args[0]).items()
+    return PyIter(items[::args[1]])
+
+
+@model(r"^<.* as Iterator>::skip$", "Iterator::skip")
+def m_skip(eng, callee, args):
+    items = as_iter(args[0]).items()
+    return PyIter(items[args[1]:])
+
+
+@model(r"^<.* as Iterator>::chain::<", "Iterator::chain")
+def m_chain(eng, callee, args):
+    a = as_iter(args[0])
+    b = args[1] if isinstance(args[1], PyIter) else m_into_iter(eng, "", [args[1]])
+
+    def g():
+        for x in a.gen:
+            yield x
+        for x in b.gen:
+            yield x
+    return PyIter(g())
+
+
+@model(r"^<.* as Iterator>::flat_map::<", "Iterator::flat_map")
+def m_flat_map(eng, callee, args):
+    a = as_iter(args[0])
+
+    def g():
+        for x in a.gen:
+            inner = eng.call_closure(args[1], [x])
+            it = inner if isinstance(inner, PyIter) else m_into_iter(eng, "", [inner])
+            for y in it.gen:
+                yield y
+    return PyIter(g())
+
+
+@model(r"^<.* as Iterator>::filter::<", "Iterator::filter (concrete predicates)")
+def m_filter(eng, callee, args):
+    a = as_iter(args[0])
+
+    def g():
+        for x in a.gen:
+            keep = eng.call_closure(args[1], [Ref.to(x)])
+            if eng.ctx.branch(keep, "filter"):
+                yield x
+    return PyIter(g())
+
+
+@model(r"^<.* as Iterator>::(count|last|nth)$", "Iterator::count / last / nth")
+def m_count_last(eng, callee, args):
+    items = as_iter(args[0]).items()
+    if callee.endswith("count"):
+        return len(items)
+    if callee.endswith("last"):
+        return Some(items[-1]) if items else NONE()
+    return Some(items[args[1]]) if args[1] < len(items) else NONE()
+
+
+@model(r"^<.* as Iterator>::(any|all)::<", "Iterator::any / all")
+def m_any_all(eng, callee, args):
+    a = as_iter(args[0])
+    is_any = "::any::<" in callee
+    for x in a.gen:
+        r = eng.ctx.branch(eng.call_closure(args[1], [x]), "any/all")
+        if is_any and r:
+            return True
+        if not is_any and not r:
+            return False
+    return not is_any
+
+
+@model(r"^<std::ops::RangeInclusive<\w+> as IntoIterator>::into_iter$|^<std::ops::RangeInclusive<\w+> as Iterator>::", "RangeInclusive iteration")
+def m_range_incl(eng, callee, args):
+    r = deref(args[0])
+    raise Unmodelled("RangeInclusive internals: " + callee)
+
+
+@model(r"^std::ops::RangeInclusive::<\w+>::new$|^RangeInclusive::<\w+>::new$", "a..=b")
+def m_range_incl_new(eng, callee, args):
+    a, b = args
+    if not (isinstance(a, int) and isinstance(b, int)):
+        raise Unmodelled("symbolic inclusive range")
+    return PyIter(range(a, b + 1))
+
+
+@model(r"^core::slice::<impl \[.*\]>::(chunks|chunks_exact)$", "slice::chunks")
+def m_chunks(eng, callee, args):
+    d = deref(args[0])
+    items = d.items if isinstance(d, RVec) else d
+    k = args[1]
+    out = [RVec(items[i:i + k]) for i in range(0, len(items), k)]
+    if callee.endswith("chunks_exact"):
+        out = [c for c in out if len(c.items) == k]
+    return PyIter([Ref.to(c) for c in out])
+
+
+@model(r"^<(SmallRng|rand::prelude::SmallRng|rand::rngs::SmallRng) as Clone>::clone$", "SmallRng::clone copies the generator state")
+def m_rng_clone(eng, callee, args):
+    return clone_val(deref(args[0]))
